@@ -4,6 +4,19 @@ MODULES = ["CobyqaVerif.Props.C20"]
 LEVEL = "proof"
 
 
+def conventions(chk, verdicts):
+    """calling convention: keyword `intermediate_result` iff the callback's parameter set is exactly that name"""
+    n = 0
+    for s, v in verdicts:
+        n += 1 if s.get("desc", {}).get("callback_kind") else 0
+        for e in s.get("convention_errors", [])[:1]:
+            chk.violation({"property": "C20", "kind": "spec-fails-on-implementation", "desc": s["desc"], "failure": e,
+                           "explain": "the callback of the given shape was invoked in the wrong calling convention (harness/trace.py make_callback)",
+                           "signature": {"failure": "calling-convention", "kind": e["kind"]}})
+    chk.coverage["runs_checked_for_calling_convention"] = n
+
+
 def run(chk, rng, replay=None):
     runlevel.run_check(chk, rng, replay, "C20", MODULES, "C20", 300, 4000, {"C20"},
+                       extra=conventions,
                        doc="the callback is called exactly once per evaluation, after the filter update, with the user-space point (and objective value) best_eval would select with the penalty in force; StopIteration at call k gives status 3, nfev = k and that point")
